@@ -81,6 +81,7 @@ End Try.
 (* ---- end to end: the drivers applied to a program (Hand/Prog.v, evaluated over the translated operations) return the derivatives of the real function the
    program computes -- C05 composed with C03.  fR p x is the real evaluation with one input; replace_at x i t puts t at position i. *)
 From ND Require Import Prog C03_proofs C05_programs.
+From ND Require Import C04_proofs C03_mixed C05_hessian.
 Theorem C05_first_derivative_of_program : forall p x, okR (x :: nil) p ->
   exists l, first_derivative (fun d => eval (d :: nil) p) x = (fR p x, l) /\ is_derive (fR p) x l.
 Proof. exact first_derivative_of_program. Qed.
@@ -110,6 +111,26 @@ Theorem C05_second_partial_derivative_of_program : forall p x y, okR (x :: y :: 
     is_derive (fun s => f s y) x fx /\ locally x (fun s => is_derive (f s) y (ft s)) /\ fy = ft x /\ is_derive ft x fxy.
 Proof. exact second_partial_derivative_of_program. Qed.
 
+(* hessian: any number of variables.  shift2 x i j xi xj s t is x moved by (s - x_i) along e_i and by (t - x_j) along e_j (for i = j: by both along e_i);
+   G i is the partial derivative with respect to x_i and H i j the second partial derivative d/dx_i d/dx_j of the real function the program computes *)
+Theorem C05_shift2_meaning : forall x i j xi xj s t, shift2 x i j xi xj s t = mapi (fun k xk => xk + delta k i * (s - xi) + delta k j * (t - xj)) x.
+Proof. exact (fun x i j xi xj s t => eq_refl). Qed.
+Theorem C05_hessian_of_program : forall p (x : list R), okR x p ->
+  exists G H, hessian (fun v => eval v p) x = (eval (T:=R) x p, G, H) /\
+    forall i j xi xj, nth_error x i = Some xi -> nth_error x j = Some xj ->
+      let f := fun s t => eval (T:=R) (shift2 x i j xi xj s t) p in
+      is_derive (fun s => f s xj) xi (mget G i 0) /\
+      exists ft : R -> R, locally xi (fun s => is_derive (f s) xj (ft s)) /\ mget G j 0 = ft xi /\ is_derive ft xi (mget H i j).
+Proof. exact hessian_of_program. Qed.
+(* partial_hessian: programs over x ++ y; H i j = d/dx_i d/dy_j *)
+Theorem C05_partial_hessian_of_program : forall p (x y : list R), okR (x ++ y) p ->
+  exists Gx Gy H, partial_hessian (fun a b => eval (a ++ b) p) x y = (eval (T:=R) (x ++ y) p, Gx, Gy, H) /\
+    forall i j xi yj, nth_error x i = Some xi -> nth_error y j = Some yj ->
+      let f := fun s t => eval (T:=R) (replace_at x i s ++ replace_at y j t) p in
+      is_derive (fun s => f s yj) xi (mget Gx i 0) /\
+      exists ft : R -> R, locally xi (fun s => is_derive (f s) yj (ft s)) /\ mget Gy j 0 = ft xi /\ is_derive ft xi (mget H i j).
+Proof. exact partial_hessian_of_program. Qed.
+
 (* non-vacuity: a three-element input has a third element *)
 Example C05_seed_example : exists s, nth_error (seed_gradient [1; 2; 3]) 2 = Some s /\ part_DualVec s (2%nat :: nil) = 1 /\ part_DualVec s (0%nat :: nil) = 0.
 Proof. eexists; split; [reflexivity|]. split; rcbv; reflexivity. Qed.
@@ -132,5 +153,8 @@ Definition C05_bundle := (C05_seed_gradient_spec,
   C05_third_derivative_of_program,
   C05_gradient_of_program,
   C05_jacobian_of_programs,
-  C05_second_partial_derivative_of_program).
+  C05_second_partial_derivative_of_program,
+  C05_shift2_meaning,
+  C05_hessian_of_program,
+  C05_partial_hessian_of_program).
 Print Assumptions C05_bundle.
